@@ -2,6 +2,7 @@
 import ast
 import itertools
 import math
+import os
 from fractions import Fraction as Q
 
 import numpy as np
@@ -12,7 +13,7 @@ from pyvc.nf import NF, NFError
 from pyvc.interp import Interp, Obj, ClassV, FuncV, PyRaise, Unsupported, ExcV
 from pyvc.terms import T
 
-NS = 2  # generic extent of the sample axis (every other axis gets a different extent), see DESIGN 2.3
+NS = int(os.environ.get("VERIF_NS", "2"))  # generic extent of the sample axis (every other axis gets a different extent), see DESIGN 2.3; the thorough tier re-runs with 3
 
 
 def sym_array(name, shape, sort="R"):
